@@ -243,3 +243,79 @@ func VerifC17Kill(h *verifh.H) {
 	}
 	h.Observe("runs", runs)
 }
+
+// VerifC17TwoRuns: the same job object (log handler + reRun handler, with or
+// without a transform in the pipeline, through the real
+// verify/toTriggeredJobs/Run path) runs twice. In the first run the sink
+// rejects one entity or none; the second run (started by the reRun timer or by
+// the next trigger) reads one more entity, which the sink accepts or rejects.
+// Each run's recorded outcome carries an error iff an entity was rejected in
+// THAT run, each rejected entity is reported once per run it was rejected in,
+// every accepted entity is delivered, and after a clean run nothing is
+// re-executed.
+func VerifC17TwoRuns(h *verifh.H) {
+	hub := server.VerifNewHub(h)
+	_, _ = hub.Dsm.CreateDataset("src", nil)
+	_, _ = hub.Dsm.CreateDataset("dst", nil)
+	runner := vRunner(hub, 1, 1)
+	sch := &Scheduler{Logger: hub.Env.Logger, Store: hub.Store, Runner: runner, DatasetManager: hub.Dsm}
+	trig := JobTrigger{TriggerType: TriggerTypeCron, JobType: JobTypeIncremental, Schedule: "@every 60s",
+		ErrorHandlers: []*ErrorHandler{{Type: "log"}, {Type: "reRun", MaxRetries: 1, RetryDelay: 1}}}
+	cfg := &JobConfiguration{ID: "job-1", Title: "job one",
+		Source:   map[string]interface{}{"Type": "DatasetSource", "Name": "src"},
+		Sink:     map[string]interface{}{"Type": "DatasetSink", "Name": "dst"},
+		Triggers: []JobTrigger{trig}}
+	h.Assert(sch.verify(cfg) == nil, "definition accepted")
+	jobs, err := sch.toTriggeredJobs(cfg)
+	h.Assert(err == nil && len(jobs) == 1, "one job")
+	if err != nil || len(jobs) != 1 {
+		return
+	}
+	j := jobs[0]
+	ents := vEntities(3)
+	src := &vSource{batches: [][]*server.Entity{{ents[0]}, {ents[1]}}, failAt: -1}
+	sink := &vSink{failBatch: -1, failing: map[string]bool{}}
+	reject1 := h.Choice("reject1", 2) == 1
+	reject2 := h.Choice("reject2", 2) == 1
+	if reject1 {
+		sink.failing[ents[0].ID] = true
+	}
+	j.pipeline.spec().source = src
+	j.pipeline.spec().sink = sink
+	j.pipeline.spec().batchSize = 1
+	if h.Choice("withTransform", 2) == 1 {
+		j.pipeline.spec().transform = &vTransform{par: 1}
+	}
+	j.Run()
+	res := &jobResult{}
+	h.Assert(hub.Store.GetObject(server.JobResultIndex, "job-1", res) == nil && res.ID == "job-1", "run result stored")
+	h.Assert((res.LastError != "") == reject1, "the first run's recorded outcome carries the error iff an entity was rejected in it :: lastError="+res.LastError)
+	// before the second run one more entity arrives; the one rejected before is not offered again
+	// (the token moved past it), the new one is accepted or rejected
+	src.batches = append(src.batches, []*server.Entity{ents[2]})
+	delete(sink.failing, ents[0].ID)
+	if reject2 {
+		sink.failing[ents[2].ID] = true
+	}
+	before := len(sink.delivered)
+	if reject1 {
+		// the reRun timer fires (whether a pending timer fires is a choice of the explorer; the
+		// paths on which it does not are not followed further)
+		if !h.FireTimer("rerun", 2500*time.Millisecond) {
+			h.Assume(false)
+			return
+		}
+	} else {
+		h.Assert(!h.FireTimer("rerun", 2500*time.Millisecond), "a clean run is not re-executed")
+		j.Run() // the next trigger
+	}
+	res2 := &jobResult{}
+	h.Assert(hub.Store.GetObject(server.JobResultIndex, "job-1", res2) == nil, "second run result stored")
+	h.Assert((res2.LastError != "") == reject2, "the second run's recorded outcome carries the error iff an entity was rejected in that run :: lastError="+res2.LastError+" reject1="+strconv.FormatBool(reject1)+" reject2="+strconv.FormatBool(reject2))
+	if !reject2 {
+		h.Assert(len(sink.delivered) == before+1, "the second run delivers the new entity")
+		h.Assert(!h.FireTimer("rerun2", 2500*time.Millisecond), "nothing is re-executed after a clean run")
+	}
+	h.Assert(len(runner.raffle.runningJobs) == 0, "run slot released")
+	h.Observe("second", res2.LastError != "")
+}
